@@ -11,6 +11,8 @@ import (
 	"sort"
 	"strings"
 
+	cose "github.com/veraison/go-cose"
+
 	"verif/tape"
 )
 
@@ -44,10 +46,11 @@ type Run struct {
 	KnownHits map[string]string // known signature -> first detail
 	Viol      *Violation
 
-	shape  []string
-	sched  []uint64 // schedule hashes of the concurrent blocks of this run
-	trace  []string // rendered operations (kept short)
-	Logged *strings.Builder
+	signers map[string]cose.Signer // long-lived Signer objects of this run (world.go)
+	shape   []string
+	sched   []uint64 // schedule hashes of the concurrent blocks of this run
+	trace   []string // rendered operations (kept short)
+	Logged  *strings.Builder
 }
 
 // NewRun prepares a run.
